@@ -1,4 +1,5 @@
 import OdakProofs.Lemmas.Index
+import OdakProofs.Lemmas.GenPadCropRound
 
 /-! # C08 – zero-pad and centre-crop are exact inverses that keep the optical axis fixed
   Statements are over the axis maps of `OdakModel/Index.lean`, whose integer expressions
@@ -203,5 +204,282 @@ theorem C08_torch_layouts (b c h w : Nat) (hh : 5 ≤ h) (hw : 5 ≤ w) (hc : c 
 
 /-- non-vacuity: a 5 × 7 field, default and explicit (11 × 8) sizes satisfy every hypothesis above -/
 example : (5 ≤ 11 ∧ 7 ≤ 8) ∧ (torchPad false 0 5 7 0 0).1 = true ∧ (npPad true 1 5 7 11 8).1 = true := by decide
+
+end Odak
+
+/-! ## The regenerated tensor programs (`Generated/PadCrop.lean`, regenerated from `/repo` on every run by
+  `harness/translate/padcrop.py`): rank handling, channels-last heuristic, allocation, slice store / `np.pad`, slice read and the
+  squeezes on the way out, statement by statement.  `C08_gen_*`: for every documented rank / layout (`Layout`: `[m x n]`,
+  `[c x m x n]` - a single channel `[1 x m x n]` included -, `[k x c x m x n]`, `[k x m x n x c]`) output shape, output element,
+  `crop_center (zero_pad x) = x` as TENSORS, NumPy = torch; `*_tie`: the regenerated programs are the hand-written axis maps of
+  `OdakModel/Index.lean` (`torchPad`, `torchCrop`, `npPad`, `npCrop`, `torchSpatialAxes`) applied on the spatial axes.
+  Every scalar type `α` (the theorems are index logic; `Num.ofNat 0` is the zero `torch.zeros` / `np.pad` write). -/
+namespace Odak
+open Odak.Index Odak.Gen Tensor
+set_option linter.unusedSectionVars false
+set_option linter.unusedVariables false
+variable {α : Type} [Num α]
+
+/-- torch `zero_pad`, `size = None`: Python accepts the store, every spatial side doubles, rank and layout are kept, the output
+    element is the input element at the index shifted by `axisStart` inside the window and 0 outside -/
+theorem C08_gen_torch_pad_default (L : Layout) (x : Tensor α) (k c h w : Nat) (hs : x.shape = L.shape k c h w)
+    (ha : L.Accepts c w) :
+    GenPC.torch_zero_pad_default_ok x = true ∧
+    (GenPC.torch_zero_pad_default x).shape = L.shape k c (2 * h) (2 * w) ∧
+    ∀ b ch i j, b < k → ch < c → i < 2 * h → j < 2 * w →
+      (GenPC.torch_zero_pad_default x).get (L.idx b ch i j) =
+        if (axisStart (2 * h) h ≤ i ∧ i < axisStart (2 * h) h + h) ∧ (axisStart (2 * w) w ≤ j ∧ j < axisStart (2 * w) w + w) then
+          x.get (L.idx b ch (i - axisStart (2 * h) h) (j - axisStart (2 * w) w)) else Num.ofNat 0 :=
+  torch_zero_pad_default_spec L x k c h w hs ha
+
+/-- torch `zero_pad` with an explicit size `[S0, S1]`, `S0 ≥ h`, `S1 ≥ w` -/
+theorem C08_gen_torch_pad_explicit (L : Layout) (x : Tensor α) (k c h w S0 S1 : Nat) (hs : x.shape = L.shape k c h w)
+    (ha : L.Accepts c w) (h0 : h ≤ S0) (h1 : w ≤ S1) :
+    GenPC.torch_zero_pad_explicit_ok x [S0, S1] = true ∧
+    (GenPC.torch_zero_pad_explicit x [S0, S1]).shape = L.shape k c S0 S1 ∧
+    ∀ b ch i j, b < k → ch < c → i < S0 → j < S1 →
+      (GenPC.torch_zero_pad_explicit x [S0, S1]).get (L.idx b ch i j) =
+        if (axisStart S0 h ≤ i ∧ i < axisStart S0 h + h) ∧ (axisStart S1 w ≤ j ∧ j < axisStart S1 w + w) then
+          x.get (L.idx b ch (i - axisStart S0 h) (j - axisStart S1 w)) else Num.ofNat 0 :=
+  torch_zero_pad_explicit_spec L x k c h w S0 S1 hs ha h0 h1
+
+/-- torch `crop_center`: rank and layout are kept, the sides are halved (or become the requested size), the window starts at
+    `axisStart` (the FFT-centre sample stays the FFT-centre sample) -/
+theorem C08_gen_torch_crop (L : Layout) (x : Tensor α) (k c H W s0 s1 : Nat) (hs : x.shape = L.shape k c H W)
+    (ha : L.Accepts c W) (h0 : s0 ≤ H) (h1 : s1 ≤ W) :
+    ((GenPC.torch_crop_center_default x).shape = L.shape k c (H / 2) (W / 2) ∧
+      ∀ b ch i j, b < k → ch < c → i < H / 2 → j < W / 2 →
+        (GenPC.torch_crop_center_default x).get (L.idx b ch i j) =
+          x.get (L.idx b ch (i + axisStart H (H / 2)) (j + axisStart W (W / 2)))) ∧
+    ((GenPC.torch_crop_center_explicit x [s0, s1]).shape = L.shape k c s0 s1 ∧
+      ∀ b ch i j, b < k → ch < c → i < s0 → j < s1 →
+        (GenPC.torch_crop_center_explicit x [s0, s1]).get (L.idx b ch i j) =
+          x.get (L.idx b ch (i + axisStart H s0) (j + axisStart W s1))) :=
+  ⟨torch_crop_center_default_spec L x k c H W hs ha, torch_crop_center_explicit_spec L x k c H W s0 s1 hs ha h0 h1⟩
+
+/-- torch: `crop_center (zero_pad x) = x` as tensors - the same shape (rank and layout included) and the same element at every
+    multi-index - for every documented rank / layout, every side length and parity, default and explicit sizes -/
+theorem C08_gen_torch_crop_pad_id (L : Layout) (x : Tensor α) (k c h w S0 S1 : Nat) (hs : x.shape = L.shape k c h w)
+    (ha : L.Accepts c w) (h0 : h ≤ S0) (h1 : w ≤ S1) :
+    ((GenPC.torch_crop_center_default (GenPC.torch_zero_pad_default x)).shape = x.shape ∧
+      ∀ b ch i j, b < k → ch < c → i < h → j < w →
+        (GenPC.torch_crop_center_default (GenPC.torch_zero_pad_default x)).get (L.idx b ch i j) = x.get (L.idx b ch i j)) ∧
+    ((GenPC.torch_crop_center_explicit (GenPC.torch_zero_pad_explicit x [S0, S1]) [h, w]).shape = x.shape ∧
+      ∀ b ch i j, b < k → ch < c → i < h → j < w →
+        (GenPC.torch_crop_center_explicit (GenPC.torch_zero_pad_explicit x [S0, S1]) [h, w]).get (L.idx b ch i j) =
+          x.get (L.idx b ch i j)) :=
+  ⟨torch_crop_pad_default L x k c h w hs ha, torch_crop_pad_explicit L x k c h w S0 S1 hs ha h0 h1⟩
+
+/-- the single-channel image `[1 x m x n]`: the channel axis survives both functions (only the axes the functions added
+    themselves are squeezed away) -/
+theorem C08_gen_torch_single_channel (x : Tensor α) (m n : Nat) (hs : x.shape = [1, m, n]) (hn : 5 ≤ n) :
+    (GenPC.torch_zero_pad_default x).shape = [1, 2 * m, 2 * n] ∧
+    (GenPC.torch_crop_center_default (GenPC.torch_zero_pad_default x)).shape = [1, m, n] ∧
+    ∀ i j, i < m → j < n →
+      (GenPC.torch_crop_center_default (GenPC.torch_zero_pad_default x)).get [0, i, j] = x.get [0, i, j] := by
+  have a := (torch_zero_pad_default_spec Layout.chw x 1 1 m n hs hn).2.1
+  have b := torch_crop_pad_default Layout.chw x 1 1 m n hs hn
+  exact ⟨a, hs ▸ b.1, fun i j hi hj => b.2 0 0 i j (by omega) (by omega) hi hj⟩
+
+/-- NumPy `zero_pad` (rank 2): accepted, sides double / become the requested size for every parity, content at `axisStart` -/
+theorem C08_gen_np_pad (x : Tensor α) (h w S0 S1 : Nat) (hs : x.shape = [h, w]) (h0 : h ≤ S0) (h1 : w ≤ S1) :
+    (GenPC.np_zero_pad_default_ok x = true ∧ (GenPC.np_zero_pad_default x).shape = [2 * h, 2 * w] ∧
+      ∀ i j, i < 2 * h → j < 2 * w →
+        (GenPC.np_zero_pad_default x).get [i, j] =
+          if (axisStart (2 * h) h ≤ i ∧ i < axisStart (2 * h) h + h) ∧ (axisStart (2 * w) w ≤ j ∧ j < axisStart (2 * w) w + w) then
+            x.get [i - axisStart (2 * h) h, j - axisStart (2 * w) w] else Num.ofNat 0) ∧
+    (GenPC.np_zero_pad_explicit_ok x [S0, S1] = true ∧ (GenPC.np_zero_pad_explicit x [S0, S1]).shape = [S0, S1] ∧
+      ∀ i j, i < S0 → j < S1 →
+        (GenPC.np_zero_pad_explicit x [S0, S1]).get [i, j] =
+          if (axisStart S0 h ≤ i ∧ i < axisStart S0 h + h) ∧ (axisStart S1 w ≤ j ∧ j < axisStart S1 w + w) then
+            x.get [i - axisStart S0 h, j - axisStart S1 w] else Num.ofNat 0) :=
+  ⟨np_zero_pad_default_spec x h w hs, np_zero_pad_explicit_spec x h w S0 S1 hs h0 h1⟩
+
+/-- NumPy `zero_pad` hands `np.pad` one pair of widths per spatial axis: an array that is not 2-D is rejected (the NumPy API has no
+    rank / layout handling at all) -/
+theorem C08_gen_np_pad_rank2_only (x : Tensor α) (S : List Nat) (hr : x.shape.length ≠ 2) :
+    GenPC.np_zero_pad_default_ok x = false ∧ GenPC.np_zero_pad_explicit_ok x S = false :=
+  np_zero_pad_rank2_only x S hr
+
+/-- NumPy `crop_center` (rank 2; on height x width x channels the two leading axes are cropped and the channels kept) -/
+theorem C08_gen_np_crop (x : Tensor α) (H W s0 s1 : Nat) (hs : x.shape = [H, W]) (h0 : s0 ≤ H) (h1 : s1 ≤ W) :
+    ((GenPC.np_crop_center_default x).shape = [H / 2, W / 2] ∧
+      ∀ i j, i < H / 2 → j < W / 2 →
+        (GenPC.np_crop_center_default x).get [i, j] = x.get [i + axisStart H (H / 2), j + axisStart W (W / 2)]) ∧
+    ((GenPC.np_crop_center_explicit x [s0, s1]).shape = [s0, s1] ∧
+      ∀ i j, i < s0 → j < s1 →
+        (GenPC.np_crop_center_explicit x [s0, s1]).get [i, j] = x.get [i + axisStart H s0, j + axisStart W s1]) :=
+  ⟨np_crop_center_default_spec x H W hs, np_crop_center_explicit_spec x H W s0 s1 hs h0 h1⟩
+
+theorem C08_gen_np_crop_channels_last (x : Tensor α) (H W c : Nat) (hs : x.shape = [H, W, c]) :
+    (GenPC.np_crop_center_default x).shape = [H / 2, W / 2, c] ∧
+    ∀ i j ch, i < H / 2 → j < W / 2 → ch < c →
+      (GenPC.np_crop_center_default x).get [i, j, ch] = x.get [i + axisStart H (H / 2), j + axisStart W (W / 2), ch] :=
+  np_crop_center_default_spec_hwc x H W c hs
+
+/-- NumPy: `crop_center (zero_pad x) = x` as tensors, every side (odd sides and 1 included), default and explicit sizes -/
+theorem C08_gen_np_crop_pad_id (x : Tensor α) (h w S0 S1 : Nat) (hs : x.shape = [h, w]) (h0 : h ≤ S0) (h1 : w ≤ S1) :
+    ((GenPC.np_crop_center_default (GenPC.np_zero_pad_default x)).shape = x.shape ∧
+      ∀ i j, i < h → j < w → (GenPC.np_crop_center_default (GenPC.np_zero_pad_default x)).get [i, j] = x.get [i, j]) ∧
+    ((GenPC.np_crop_center_explicit (GenPC.np_zero_pad_explicit x [S0, S1]) [h, w]).shape = x.shape ∧
+      ∀ i j, i < h → j < w →
+        (GenPC.np_crop_center_explicit (GenPC.np_zero_pad_explicit x [S0, S1]) [h, w]).get [i, j] = x.get [i, j]) :=
+  ⟨np_crop_pad_default x h w hs, np_crop_pad_explicit x h w S0 S1 hs h0 h1⟩
+
+/-- NumPy and torch `zero_pad` return the same tensor (shape and every element), default and explicit sizes, every parity -/
+theorem C08_gen_np_torch_same_placement (x : Tensor α) (h w S0 S1 : Nat) (hs : x.shape = [h, w]) (hw : 5 ≤ w)
+    (h0 : h ≤ S0) (h1 : w ≤ S1) :
+    ((GenPC.np_zero_pad_default x).shape = (GenPC.torch_zero_pad_default x).shape ∧
+      ∀ i j, i < 2 * h → j < 2 * w → (GenPC.np_zero_pad_default x).get [i, j] = (GenPC.torch_zero_pad_default x).get [i, j]) ∧
+    ((GenPC.np_zero_pad_explicit x [S0, S1]).shape = (GenPC.torch_zero_pad_explicit x [S0, S1]).shape ∧
+      ∀ i j, i < S0 → j < S1 →
+        (GenPC.np_zero_pad_explicit x [S0, S1]).get [i, j] = (GenPC.torch_zero_pad_explicit x [S0, S1]).get [i, j]) :=
+  np_torch_pad_same x h w S0 S1 hs hw h0 h1
+
+/-- what the regenerated torch programs do with a rank-3 channels-LAST image `[m x n x c]` (not a documented layout):
+    `zero_pad` keeps the layout, `crop_center` returns the crop channels FIRST - so `crop_center (zero_pad x)` has the shape
+    `[c, m, n]`, not the shape of `x` -/
+theorem C08_gen_torch_rank3_channels_last (x : Tensor α) (m n c : Nat) (hs : x.shape = [m, n, c]) (hc : c < 5) :
+    (GenPC.torch_zero_pad_default x).shape = [2 * m, 2 * n, c] ∧
+    (GenPC.torch_crop_center_default (GenPC.torch_zero_pad_default x)).shape = [c, 2 * m / 2, 2 * n / 2] :=
+  ⟨(torch_zero_pad_default_hwc x m n c hs hc).1,
+   (torch_crop_center_default_hwc _ (2 * m) (2 * n) c (torch_zero_pad_default_hwc x m n c hs hc).1 hc).1⟩
+
+/-- the allocation of torch `zero_pad` takes device and dtype from the input; the default placement is `'center'` in both APIs -/
+theorem C08_gen_alloc_and_defaults :
+    GenPC.torch_zero_pad_alloc = [[("device", "field.device"), ("dtype", "field.dtype")]] ∧
+    GenPC.torch_zero_pad_method = "center" ∧ GenPC.np_zero_pad_method = "center" := by decide
+
+/-! ### tie: the regenerated programs are the hand-written axis maps on the spatial axes -/
+
+/-- reading the input through two axis maps of `OdakModel/Index.lean` (`none` = a zero written by padding) -/
+def readVia (x : Tensor α) (L : Layout) (b ch : Nat) : Option Nat → Option Nat → α
+  | some a, some a' => x.get (L.idx b ch a a')
+  | _, _ => Num.ofNat 0
+
+theorem readVia_pad (x : Tensor α) (L : Layout) (b ch : Nat) (p q : AxisMap) (h s len w t len' i j : Nat)
+    (hp : p.IsPad h s len) (hq : q.IsPad w t len') (hi : i < len) (hj : j < len') :
+    readVia x L b ch (p.src i) (q.src j) =
+      if (s ≤ i ∧ i < s + h) ∧ (t ≤ j ∧ j < t + w) then x.get (L.idx b ch (i - s) (j - t)) else Num.ofNat 0 := by
+  rw [hp.2.2 i hi, hq.2.2 j hj]
+  by_cases h1 : s ≤ i ∧ i < s + h <;> by_cases h2 : t ≤ j ∧ j < t + w <;> simp [h1, h2, readVia]
+
+theorem torchSpatialAxes_layout (L : Layout) (k c h w : Nat) (ha : L.Accepts c w) :
+    torchSpatialAxes (L.shape k c h w) = some L.spatial := by
+  cases L <;> simp only [Layout.Accepts] at ha <;>
+    simp [torchSpatialAxes, Layout.shape, Layout.spatial, ha, Nat.not_lt.mpr] <;> omega
+
+/-- torch `zero_pad` = `torchPad` on the axes `torchSpatialAxes` names: acceptance flag, shape, every element -/
+theorem C08_gen_torch_pad_tie (L : Layout) (x : Tensor α) (k c h w S0 S1 : Nat) (hs : x.shape = L.shape k c h w)
+    (ha : L.Accepts c w) (h0 : h ≤ S0) (h1 : w ≤ S1) :
+    torchSpatialAxes x.shape = some L.spatial ∧
+    (GenPC.torch_zero_pad_default_ok x = ((torchPad false 0 h w 0 0).1 && (torchPad false 1 h w 0 0).1) ∧
+      (GenPC.torch_zero_pad_default x).shape = L.shape k c (torchPad false 0 h w 0 0).2.len (torchPad false 1 h w 0 0).2.len ∧
+      ∀ b ch i j, b < k → ch < c → i < (torchPad false 0 h w 0 0).2.len → j < (torchPad false 1 h w 0 0).2.len →
+        (GenPC.torch_zero_pad_default x).get (L.idx b ch i j) =
+          readVia x L b ch ((torchPad false 0 h w 0 0).2.src i) ((torchPad false 1 h w 0 0).2.src j)) ∧
+    (GenPC.torch_zero_pad_explicit_ok x [S0, S1] = ((torchPad true 0 h w S0 S1).1 && (torchPad true 1 h w S0 S1).1) ∧
+      (GenPC.torch_zero_pad_explicit x [S0, S1]).shape =
+        L.shape k c (torchPad true 0 h w S0 S1).2.len (torchPad true 1 h w S0 S1).2.len ∧
+      ∀ b ch i j, b < k → ch < c → i < (torchPad true 0 h w S0 S1).2.len → j < (torchPad true 1 h w S0 S1).2.len →
+        (GenPC.torch_zero_pad_explicit x [S0, S1]).get (L.idx b ch i j) =
+          readVia x L b ch ((torchPad true 0 h w S0 S1).2.src i) ((torchPad true 1 h w S0 S1).2.src j)) := by
+  obtain ⟨⟨f0, p0⟩, ⟨f1, p1⟩⟩ := C08_torch_pad_default h w
+  obtain ⟨⟨g0, q0⟩, ⟨g1, q1⟩⟩ := C08_torch_pad_explicit h w S0 S1 h0 h1
+  obtain ⟨a1, a2, a3⟩ := C08_gen_torch_pad_default L x k c h w hs ha
+  obtain ⟨b1, b2, b3⟩ := C08_gen_torch_pad_explicit L x k c h w S0 S1 hs ha h0 h1
+  refine ⟨hs ▸ torchSpatialAxes_layout L k c h w ha, ⟨?_, ?_, ?_⟩, ⟨?_, ?_, ?_⟩⟩
+  · rw [a1, f0, f1]; rfl
+  · rw [a2, p0.1, p1.1]
+  · intro b ch i j hb hch hi hj
+    rw [p0.1] at hi; rw [p1.1] at hj
+    rw [a3 b ch i j hb hch hi hj, readVia_pad x L b ch _ _ _ _ _ _ _ _ i j p0 p1 hi hj]
+  · rw [b1, g0, g1]; rfl
+  · rw [b2, q0.1, q1.1]
+  · intro b ch i j hb hch hi hj
+    rw [q0.1] at hi; rw [q1.1] at hj
+    rw [b3 b ch i j hb hch hi hj, readVia_pad x L b ch _ _ _ _ _ _ _ _ i j q0 q1 hi hj]
+
+/-- torch `crop_center` = `torchCrop` on the spatial axes: shape and every element -/
+theorem C08_gen_torch_crop_tie (L : Layout) (x : Tensor α) (k c H W s0 s1 : Nat) (hs : x.shape = L.shape k c H W)
+    (ha : L.Accepts c W) (h0 : s0 ≤ H) (h1 : s1 ≤ W) :
+    ((GenPC.torch_crop_center_default x).shape = L.shape k c (torchCrop false 0 H W 0 0).len (torchCrop false 1 H W 0 0).len ∧
+      ∀ b ch i j, b < k → ch < c → i < (torchCrop false 0 H W 0 0).len → j < (torchCrop false 1 H W 0 0).len →
+        (GenPC.torch_crop_center_default x).get (L.idx b ch i j) =
+          readVia x L b ch ((torchCrop false 0 H W 0 0).src i) ((torchCrop false 1 H W 0 0).src j)) ∧
+    ((GenPC.torch_crop_center_explicit x [s0, s1]).shape =
+        L.shape k c (torchCrop true 0 H W s0 s1).len (torchCrop true 1 H W s0 s1).len ∧
+      ∀ b ch i j, b < k → ch < c → i < (torchCrop true 0 H W s0 s1).len → j < (torchCrop true 1 H W s0 s1).len →
+        (GenPC.torch_crop_center_explicit x [s0, s1]).get (L.idx b ch i j) =
+          readVia x L b ch ((torchCrop true 0 H W s0 s1).src i) ((torchCrop true 1 H W s0 s1).src j)) := by
+  obtain ⟨c1, c2⟩ := loadAxis_spec H (torchCropDef_lo0 H W 0 0) (torchCropDef_hi0 H W 0 0) (axisStart H (H / 2)) (H / 2)
+    (by simp only [torchCropDef_lo0, axisStart]; omega) (by simp only [torchCropDef_hi0, axisStart]; omega)
+    (by simp only [torchCropDef_hi0]; omega)
+  obtain ⟨d1, d2⟩ := loadAxis_spec W (torchCropDef_lo1 H W 0 0) (torchCropDef_hi1 H W 0 0) (axisStart W (W / 2)) (W / 2)
+    (by simp only [torchCropDef_lo1, axisStart]; omega) (by simp only [torchCropDef_hi1, axisStart]; omega)
+    (by simp only [torchCropDef_hi1]; omega)
+  obtain ⟨e1, e2⟩ := loadAxis_spec H (torchCropExp_lo0 H W s0 s1) (torchCropExp_hi0 H W s0 s1) (axisStart H s0) s0
+    (by simp only [torchCropExp_lo0, axisStart]; omega) (by simp only [torchCropExp_hi0, axisStart]; omega)
+    (by simp only [torchCropExp_hi0]; omega)
+  obtain ⟨f1, f2⟩ := loadAxis_spec W (torchCropExp_lo1 H W s0 s1) (torchCropExp_hi1 H W s0 s1) (axisStart W s1) s1
+    (by simp only [torchCropExp_lo1, axisStart]; omega) (by simp only [torchCropExp_hi1, axisStart]; omega)
+    (by simp only [torchCropExp_hi1]; omega)
+  obtain ⟨⟨a1, a2⟩, ⟨b1, b2⟩⟩ := C08_gen_torch_crop L x k c H W s0 s1 hs ha h0 h1
+  simp only [torchCrop]
+  refine ⟨⟨by rw [a1, c1, d1], ?_⟩, ⟨by rw [b1, e1, f1], ?_⟩⟩
+  · intro b ch i j hb hch hi hj
+    rw [c1] at hi; rw [d1] at hj
+    rw [a2 b ch i j hb hch hi hj, c2, d2]; rfl
+  · intro b ch i j hb hch hi hj
+    rw [e1] at hi; rw [f1] at hj
+    rw [b2 b ch i j hb hch hi hj, e2, f2]; rfl
+
+/-- NumPy `zero_pad` / `crop_center` (rank 2) = `npPad` / `npCrop` -/
+theorem C08_gen_np_tie (x : Tensor α) (h w S0 S1 : Nat) (hs : x.shape = [h, w]) (h0 : h ≤ S0) (h1 : w ≤ S1) :
+    (GenPC.np_zero_pad_default_ok x = ((npPad false 0 h w 0 0).1 && (npPad false 1 h w 0 0).1) ∧
+      (GenPC.np_zero_pad_default x).shape = [(npPad false 0 h w 0 0).2.len, (npPad false 1 h w 0 0).2.len] ∧
+      ∀ i j, i < (npPad false 0 h w 0 0).2.len → j < (npPad false 1 h w 0 0).2.len →
+        (GenPC.np_zero_pad_default x).get [i, j] =
+          readVia x Layout.hw 0 0 ((npPad false 0 h w 0 0).2.src i) ((npPad false 1 h w 0 0).2.src j)) ∧
+    (GenPC.np_zero_pad_explicit_ok x [S0, S1] = ((npPad true 0 h w S0 S1).1 && (npPad true 1 h w S0 S1).1) ∧
+      (GenPC.np_zero_pad_explicit x [S0, S1]).shape = [(npPad true 0 h w S0 S1).2.len, (npPad true 1 h w S0 S1).2.len] ∧
+      ∀ i j, i < (npPad true 0 h w S0 S1).2.len → j < (npPad true 1 h w S0 S1).2.len →
+        (GenPC.np_zero_pad_explicit x [S0, S1]).get [i, j] =
+          readVia x Layout.hw 0 0 ((npPad true 0 h w S0 S1).2.src i) ((npPad true 1 h w S0 S1).2.src j)) ∧
+    ((GenPC.np_crop_center_default x).shape = [(npCrop false 0 h w 0 0).len, (npCrop false 1 h w 0 0).len] ∧
+      ∀ i j, i < (npCrop false 0 h w 0 0).len → j < (npCrop false 1 h w 0 0).len →
+        (GenPC.np_crop_center_default x).get [i, j] =
+          readVia x Layout.hw 0 0 ((npCrop false 0 h w 0 0).src i) ((npCrop false 1 h w 0 0).src j)) := by
+  obtain ⟨⟨f0, p0⟩, ⟨f1, p1⟩⟩ := C08_np_pad_default h w
+  obtain ⟨⟨g0, q0⟩, ⟨g1, q1⟩⟩ := C08_np_pad_explicit h w S0 S1 h0 h1
+  obtain ⟨⟨a1, a2, a3⟩, ⟨b1, b2, b3⟩⟩ := C08_gen_np_pad x h w S0 S1 hs h0 h1
+  obtain ⟨c1, c2⟩ := loadAxis_spec h (npCropDef_lo0 h w 0 0) (npCropDef_hi0 h w 0 0) (axisStart h (h / 2)) (h / 2)
+    (by simp only [npCropDef_lo0, axisStart]; omega) (by simp only [npCropDef_hi0, axisStart]; omega)
+    (by simp only [npCropDef_hi0]; omega)
+  obtain ⟨d1, d2⟩ := loadAxis_spec w (npCropDef_lo1 h w 0 0) (npCropDef_hi1 h w 0 0) (axisStart w (w / 2)) (w / 2)
+    (by simp only [npCropDef_lo1, axisStart]; omega) (by simp only [npCropDef_hi1, axisStart]; omega)
+    (by simp only [npCropDef_hi1]; omega)
+  obtain ⟨e1, e2⟩ := (C08_gen_np_crop x h w 0 0 hs (by omega) (by omega)).1
+  refine ⟨⟨?_, ?_, ?_⟩, ⟨?_, ?_, ?_⟩, ⟨?_, ?_⟩⟩
+  · rw [a1, f0, f1]; rfl
+  · rw [a2, p0.1, p1.1]
+  · intro i j hi hj
+    rw [p0.1] at hi; rw [p1.1] at hj
+    rw [a3 i j hi hj, readVia_pad x Layout.hw 0 0 _ _ _ _ _ _ _ _ i j p0 p1 hi hj]; rfl
+  · rw [b1, g0, g1]; rfl
+  · rw [b2, q0.1, q1.1]
+  · intro i j hi hj
+    rw [q0.1] at hi; rw [q1.1] at hj
+    rw [b3 i j hi hj, readVia_pad x Layout.hw 0 0 _ _ _ _ _ _ _ _ i j q0 q1 hi hj]; rfl
+  · simp only [npCrop]; rw [e1, c1, d1]
+  · simp only [npCrop]
+    intro i j hi hj
+    rw [c1] at hi; rw [d1] at hj
+    rw [e2 i j hi hj, c2, d2]; rfl
+
+/-- non-vacuity: a 5 x 7 field in the layout `[2 x 3 x 5 x 7]`, padded to 11 x 8, satisfies every hypothesis above -/
+example : Layout.bchw.Accepts 3 7 ∧ Layout.bhwc.Accepts 3 7 ∧ (Tensor.zeros (α := ℝ) (Layout.bchw.shape 2 3 5 7)).shape = [2, 3, 5, 7] ∧
+    (5 ≤ 11 ∧ 7 ≤ 8) := by
+  refine ⟨by simp [Layout.Accepts], by simp [Layout.Accepts], rfl, by omega⟩
 
 end Odak
